@@ -3,6 +3,7 @@
   Property theorems only (helpers live in Lemmas/).  All statements are about the
   executable model in Model/Coords.lean, for every rational input (no bound on sizes).
 -/
+import VerdeModel.Gen.GridCoords
 import VerdeModel.Lemmas.Coords
 import VerdeModel.Gen.Coords
 import Mathlib.Analysis.SpecialFunctions.Complex.Arg
@@ -536,5 +537,35 @@ theorem src_grid_lines (w e s n : Rat) (hwe : w ≤ e) (hsn : s ≤ n) (adj : St
     simp only [Option.map] at this
     rw [this, gridLines_spacing w e s n hwe hsn]
 
+
+/-! ## `grid_coordinates` as a whole, regenerated from the source (Gen/GridCoords.lean) -/
+
+/-- **Bridge.**  `grid_coordinates` as a whole, regenerated from the source, in its default `meshgrid=True` form: the model's `gridCoordinates` —
+    the meshgrid of the two lines (rows = northing, columns = easting) followed by one constant array per extra coordinate. -/
+theorem gen_grid_coordinates_eq_model (w e s n : Rat) (shape : Option (Nat × Nat)) (spacing : Option (List Rat)) (adj : String) (pixel : Bool)
+    (extra : List Rat) :
+    Gen.gridCoordinates w e s n (shape.map fun p => ((p.1 : Int), (p.2 : Int))) spacing adj pixel true (some extra)
+      = (gridCoordinates [w, e, s, n] ⟨shape, spacing, adjOf adj, pixel⟩ extra).map Sum.inr := by
+  unfold Gen.gridCoordinates gridCoordinates
+  rw [gen_grid_lines_eq_model]
+  cases gridLines [w, e, s, n] ⟨shape, spacing, adjOf adj, pixel⟩ with
+  | error er => rfl
+  | ok l =>
+    obtain ⟨east, north⟩ := l
+    simp [bind, Except.bind, pure, Except.pure, Except.map, meshgrid]
+
+/-- `meshgrid=False`: the two lines themselves; extra coordinates are then refused. -/
+theorem gen_grid_coordinates_lines (w e s n : Rat) (shape : Option (Nat × Nat)) (spacing : Option (List Rat)) (adj : String) (pixel : Bool)
+    (extra : Option (List Rat)) :
+    Gen.gridCoordinates w e s n (shape.map fun p => ((p.1 : Int), (p.2 : Int))) spacing adj pixel false extra
+      = (gridLines [w, e, s, n] ⟨shape, spacing, adjOf adj, pixel⟩).bind fun l =>
+          match extra with | none => .ok (.inl [l.1, l.2]) | some _ => .error .valueError := by
+  unfold Gen.gridCoordinates
+  rw [gen_grid_lines_eq_model]
+  cases gridLines [w, e, s, n] ⟨shape, spacing, adjOf adj, pixel⟩ with
+  | error er => rfl
+  | ok l =>
+    obtain ⟨east, north⟩ := l
+    cases extra <;> rfl
 
 end Verde.C07
